@@ -770,6 +770,96 @@ func (r *v06Run) step(c *v06Conn, op v06Op) bool {
 	}
 }
 
+// stall is the one exit of every liveness wait that is about bytes in transit:
+// the wait (v06WaitLong) expired. If bytes the sender wrote successfully before
+// either side closed are missing, a WITNESS decides between "the environment is
+// stuck" and "the relay lost them": a fresh proxied connection of the SAME client
+// (same QUIC connection, same server) does a small round trip in both
+// directions. Witness fails -> inconclusive (environment). Witness completes and
+// the bytes are still missing -> violation of "the whole of it when the sender
+// finishes writing before either side closes": the same connection and server
+// demonstrably moved fresh bytes both ways while the old ones, written at least
+// v06WaitLong earlier, never arrived. Never returns "ok".
+func (r *v06Run) stall(c *v06Conn, what string) {
+	w := r.w
+	w.mu.Lock()
+	// nothing may park the witness
+	if w.park != nil {
+		w.park.armed = false
+	}
+	if w.elPark != nil {
+		w.elPark.armed = false
+	}
+	missC, missT := c.cSent-c.tRecv, c.tSent-c.cRecv
+	eligible := w.fail == "" && !c.terminated && !c.u.vetoed && !c.sClosed && !c.readerDone && c.conn != nil && (missC > 0 || missT > 0)
+	state := w.stateLocked() + " history: " + w.histLocked()
+	failed := w.fail != ""
+	w.witnessN++
+	wn := w.witnessN
+	w.evLocked("stall", c.label, missC, missT, what)
+	w.mu.Unlock()
+	if failed {
+		return // a violation is already recorded: report that one
+	}
+	if !eligible {
+		vInconclusive(fmt.Sprintf("C06: %s of %s within %v and no bytes written before a close are missing on a live relay: %s", what, c.label, v06WaitLong, state))
+	}
+	r.st.Class("stall:witness-started")
+	fmt.Printf("C06-STALL %s: %s; %d client bytes / %d target bytes missing after %v; running a witness on the same QUIC connection\n", c.label, what, missC, missT, v06WaitLong)
+	wc := w.addConnLive(c.u, 900+wn, v06WinSalt(900+wn, 5), v06WinSalt(900+wn, 6))
+	if !r.open(wc, &v06ConnPlan{readBuf: 4096, preDL: -1}) {
+		v06GiveUp(w, "C06: stall witness could not be opened for "+c.label+": "+state)
+		return
+	}
+	wwait := func(what2 string, pred func() bool) bool {
+		w.mu.Lock()
+		res := w.waitLocked(20*time.Second, pred)
+		w.mu.Unlock()
+		if res == v06Timeout {
+			vInconclusive("C06: stall witness: " + what2 + " (the environment is not responsive); original stall: " + what + " of " + c.label + ": " + state)
+		}
+		return res == v06Ok
+	}
+	// write only after the server parsed the request and dialled; answer only after the upload leg completed
+	if !wwait("the server did not dial the witness target", func() bool { return wc.established }) {
+		return
+	}
+	if !r.step(wc, v06Op{v06CW, 200}) || !wwait("witness upload did not arrive", func() bool { return wc.tRecv == wc.cSent }) {
+		v06GiveUp(w, "C06: stall witness upload failed for "+c.label)
+		return
+	}
+	if !r.step(wc, v06Op{v06TW, 200}) || !wwait("witness download did not arrive", func() bool { return wc.cRecv == wc.tSent }) {
+		v06GiveUp(w, "C06: stall witness download failed for "+c.label)
+		return
+	}
+	w.mu.Lock()
+	missC2, missT2 := c.cSent-c.tRecv, c.tSent-c.cRecv
+	still := !c.terminated && !c.u.vetoed && !c.sClosed && !c.readerDone && (missC2 > 0 || missT2 > 0)
+	if still {
+		side, other, n := "the client", "the target", missC2
+		if missC2 <= 0 {
+			side, other, n = "the target", "the client", missT2
+		}
+		r.st.Class("stall:witnessed-violation")
+		w.failLocked("%s: %s: %d bytes written by %s at least %v ago, before either side closed, never reached %s, although the same QUIC connection and server served a fresh relay (%s: 200 bytes up, 200 bytes down) meanwhile: the relay lost them", c.label, what, n, side, v06WaitLong, other, wc.label)
+	}
+	state2 := w.stateLocked()
+	w.mu.Unlock()
+	_ = wc.conn.Close()
+	if !still {
+		v06GiveUp(w, fmt.Sprintf("C06: %s of %s took longer than %v but the bytes arrived during the witness: %s", what, c.label, v06WaitLong, state2))
+	}
+}
+
+// v06GiveUp ends the process as inconclusive unless a violation is already on
+// record (another connection of the case may have found one meanwhile).
+func v06GiveUp(w *v06World, msg string) {
+	if w.failed() != "" {
+		return
+	}
+	vInconclusive(msg)
+}
+
 // syncConn = S2. false: the connection cannot continue (veto, failure).
 func (r *v06Run) syncConn(c *v06Conn, where string) bool {
 	w := r.w
@@ -791,7 +881,8 @@ func (r *v06Run) syncConn(c *v06Conn, where string) bool {
 	case res == v06Aborted:
 		return false
 	case res == v06Timeout:
-		vInconclusive(fmt.Sprintf("C06: %s of %s did not complete in %v: %s", where, c.label, v06WaitLong, state))
+		_ = state
+		r.stall(c, where+" did not complete")
 		return false
 	case synced:
 		return true
@@ -837,7 +928,7 @@ func (r *v06Run) terminate(c *v06Conn, cp *v06ConnPlan) {
 		state := w.stateLocked()
 		w.mu.Unlock()
 		if res == v06Timeout {
-			vInconclusive("C06: the server did not end the relay within the deadline after the client closed " + c.label + ": " + state)
+			v06GiveUp(w, "C06: the server did not end the relay within the deadline after the client closed "+c.label+": "+state)
 		}
 		return
 	}
@@ -885,7 +976,7 @@ func (r *v06Run) terminate(c *v06Conn, cp *v06ConnPlan) {
 	state := w.stateLocked()
 	w.mu.Unlock()
 	if res == v06Timeout {
-		vInconclusive("C06: the client stream did not end within the deadline after the target ended " + c.label + ": " + state)
+		v06GiveUp(w, "C06: the client stream did not end within the deadline after the target ended "+c.label+": "+state)
 	}
 	_ = c.conn.Close()
 }
